@@ -6,6 +6,11 @@ Random ambiguity sets are built through the public `rsome.dro` API; the inputs o
 obtained exactly as the code obtains them (`pro_model.reset(); st(pro_constr); do_math(obj=False)`,
 per event `exp_model.reset(); st(exp_constr[k]); do_math(obj=False)`); the Lean result is compared
 ENTRY BY ENTRY (nr nc a b eq ub lb c qmat xmat, and the stored pattern sp) with the real result.
+
+About 40% of the cases carry exponential-cone pieces in their expectation sets (`rso.exp`,
+`rso.log`, `rso.entropy`, `kldiv`, `rso.pexp`, `rso.plog`, `rso.softplus` of affine functions of
+`E(z)`): `mix_support` forwards the exponential cones of every expectation program (three auxiliary
+columns, three linking rows and one `xmat` triple per cone, after those of the probability program).
 """
 import json
 import os
@@ -65,7 +70,43 @@ def rand_probs(rng, S):
     return np.array([(pts[i + 1] - pts[i]) / 16 for i in range(S)])
 
 
+def nzdy(rng, lo=-2, hi=2, den=2):
+    """random non-zero dyadic rational"""
+    while True:
+        v = dy(rng, lo, hi, den)
+        if v != 0:
+            return v
+
+
+EXP_KINDS = ['exp', 'log', 'entropy', 'kldiv', 'expvec', 'pexp', 'plog', 'softplus']
+
+
+def exp_piece(rng, z, nz, kind):
+    """an expectation-set piece that compiles to exponential cones (all accepted by the API on E(z))"""
+    j = int(rng.integers(0, nz))
+    if kind == 'exp':
+        return rso.exp(nzdy(rng) * E(z)[j] + dy(rng, -2, 2)) <= dy(rng, 1, 4)
+    if kind == 'log':
+        return rso.log(E(z)[j] + dy(rng, 0, 4)) >= dy(rng, -2, 1)
+    if kind == 'entropy':
+        return rso.entropy(E(z) + dy(rng, 1, 4)) >= dy(rng, -8, 0)
+    if kind == 'kldiv':
+        phat = {1: [1.0], 2: [0.5, 0.5], 3: [0.25, 0.25, 0.5]}[nz]
+        return (E(z) + dy(rng, 0, 2)).kldiv(np.array(phat), int(rng.integers(1, 9)) / 8)
+    if kind == 'expvec':
+        return rso.exp(nzdy(rng) * E(z) + dy(rng, -2, 2)) <= dy(rng, 1, 4)
+    if kind == 'pexp':
+        return rso.pexp(E(z)[j] + dy(rng, -2, 2), int(rng.integers(1, 4))) <= dy(rng, 1, 4)
+    if kind == 'plog':
+        return rso.plog(E(z)[j] + dy(rng, 1, 4), int(rng.integers(1, 4))) >= dy(rng, -4, 0)
+    if kind == 'softplus':
+        return rso.softplus(nzdy(rng) * E(z)[j] + dy(rng, -2, 2)) <= dy(rng, 1, 4)
+    raise ValueError(kind)
+
+
 def build_case(rng, extended):
+    # ~40% of the cases get exponential-cone pieces in (some of) their expectation sets
+    expo = rng.random() < 0.4
     S = int(rng.integers(1, 5))
     nz = int(rng.integers(1, 4))
     m = dro.Model(S)
@@ -105,7 +146,13 @@ def build_case(rng, extended):
 
     # expectation sets on random events
     nE = int(rng.integers(0, 4))
-    for _ in range(nE):
+    if expo:
+        nE = max(nE, 1)
+        desc.append('expo')
+    expo_sets = [bool(rng.random() < 0.6) for _ in range(nE)]
+    if expo and not any(expo_sets):
+        expo_sets[int(rng.integers(0, nE))] = True
+    for ie in range(nE):
         pieces = []
         npieces = int(rng.integers(1, 4))
         choices = ['lo', 'hi', 'lin', 'norm2']
@@ -139,6 +186,12 @@ def build_case(rng, extended):
             elif c == 'quad':
                 pieces.append(rso.sumsqr(E(z)) <= dy(rng, 0, 4))
             desc.append(c)
+        if expo and expo_sets[ie]:
+            # exponential-cone pieces, inserted at random positions among the other pieces
+            for _ in range(int(rng.integers(1, 3))):
+                kind = EXP_KINDS[int(rng.integers(0, len(EXP_KINDS)))]
+                pieces.insert(int(rng.integers(0, len(pieces) + 1)), exp_piece(rng, z, nz, kind))
+                desc.append('X' + kind)
         how = int(rng.integers(0, 3))
         if how == 0 or S == 1:
             fset.exptset(*pieces)
@@ -222,8 +275,8 @@ def main():
         print(f'cases {len(cases)} mismatches {len(cases)}')
         sys.exit(1)
     mism = 0
-    stats = {'pro_soc': 0, 'pro_exp': 0, 'blk_soc': 0, 'blk_exp_dropped': 0, 'rows_removed': 0,
-             'events': 0}
+    stats = {'pro_soc': 0, 'pro_exp': 0, 'blk_soc': 0, 'blk_exp': 0, 'pro_and_blk_exp': 0,
+             'blk_exp_cones': 0, 'blk_exp_multi': 0, 'rows_removed': 0, 'events': 0}
     for (req, real, desc), ln in zip(cases, lines):
         lean = json.loads(ln)
         bad = compare(lean, real)
@@ -233,10 +286,16 @@ def main():
         stats['pro_soc'] += bool(req['pro']['qmat'])
         stats['pro_exp'] += bool(req['pro']['xmat'])
         stats['blk_soc'] += any(e['prog']['qmat'] for e in req['exps'])
-        stats['blk_exp_dropped'] += any(e['prog']['xmat'] for e in req['exps'])
+        nblk = sum(bool(e['prog']['xmat']) for e in req['exps'])
+        stats['blk_exp'] += nblk > 0
+        stats['blk_exp_multi'] += nblk > 1
+        stats['pro_and_blk_exp'] += bool(req['pro']['xmat']) and nblk > 0
+        stats['blk_exp_cones'] += sum(len(e['prog']['xmat']) for e in req['exps'])
         stats['events'] += len(req['exps'])
         stats['rows_removed'] += bool(lean.get('rows_removed', False))
     print('coverage', json.dumps(stats))
+    print(f"cases with >=1 expectation exp-cone: {stats['blk_exp']} of {len(cases)}"
+          f" (also exp-cones in pro: {stats['pro_and_blk_exp']}, in >=2 blocks: {stats['blk_exp_multi']})")
     print(f'cases {len(cases)} mismatches {mism}')
     sys.exit(0 if mism == 0 else 1)
 
